@@ -623,10 +623,11 @@ class LinuxEnvironment(object):
             else:
                 assert (interval([(addr, addr + len_)]) & mapped).empty
 
+            # An empty mapping still owns its address (at least one byte)
             vmmngr.add_memory_page(
                 addr,
                 PAGE_READ|PAGE_WRITE,
-                b"\x00" * len_,
+                b"\x00" * max(len_, 1),
                 "mmap allocated"
             )
 
